@@ -157,6 +157,12 @@ func Reserve(ctx context.Context, h host.Host, ai peer.AddrInfo) (*Reservation, 
 				Reason: fmt.Sprintf("invalid voucher relay id: expected %s, got %s", signerPeerID, voucher.Relay),
 			}
 		}
+		if ai.ID != voucher.Relay {
+			return nil, ReservationError{
+				Status: pbv2.Status_MALFORMED_MESSAGE,
+				Reason: fmt.Sprintf("voucher was not issued by the relay we reserved with: expected %s, got %s", ai.ID, voucher.Relay),
+			}
+		}
 		if h.ID() != voucher.Peer {
 			return nil, ReservationError{
 				Status: pbv2.Status_MALFORMED_MESSAGE,
